@@ -50,7 +50,7 @@ ax_err2u.names = ["err2u"]
 
 def declare(w, with_send=True):
     s = w.schema
-    w.axiom_providers.extend([ax_decode, ax_enc_item, ax_err2u])
+    w.axiom_providers.extend([ax_decode, ax_enc_item, ax_err2u, ax_cfg2u])
     for cls in ("Queue", "Event", "Lock", "ExcObj"):
         s.set_bases(cls, ["object"])
     s.set_bases("RemoteError", ["ExcObj", "Exception"])
@@ -507,6 +507,13 @@ def declare_channel(w):
 cfg2u = z3.Function("cfg2u", z3.BoolSort(), z3.BoolSort(), U)
 
 
+def ax_cfg2u(t):
+    return [item_ok(t), t != ENDM]     # a pair of bools is a serialisable item (C01)
+
+
+ax_cfg2u.names = ["cfg2u"]
+
+
 def pyb():
     from pyvc import pybuiltins
 
@@ -679,6 +686,40 @@ def declare_channel_api(w):
     c.ghost_init = GH(lambda a, h: C(h, a.self, "gateway"))
     # close(): the channel is marked closed and the close frame is on the wire before anybody waiting on the channel is woken
     c.at_call = {"model:Event.set": lambda a, h0, call, hnow, loc=None: [("closed-before-waiters-are-woken", z3.Implies(call.self == C(h0, a.self, "_receiveclosed"), C(hnow, a.self, "_closed")))]}
+
+    # ---- Channel.reconfigure: the coercion pair is recorded locally AND announced to the peer for this channel id (C12) ------------------------
+    def rcf_post(a, h, h2, r):
+        c = a.self
+        g = C(h, c, "gateway")
+        cfg = h2.sv("Channel", c, "_strconfig")
+        return [cfg.v[0].v == a.py2str_as_py3str, cfg.v[1].v == a.py3str_as_py2str,
+                wire(h2, g) == z3.Concat(wire(h, g), z3.Unit(frame(z3.IntVal(M_RECONFIGURE), C(h, c, "id"), enc_item(cfg2u(a.py2str_as_py3str, a.py3str_as_py2str)))))]
+
+    w.add(Contract(f"{GB}:Channel.reconfigure", {"self": REF("Channel"), "py2str_as_py3str": BOOL, "py3str_as_py2str": BOOL}, defaults={"py2str_as_py3str": True, "py3str_as_py2str": False},
+                   requires=chan_wf, modifies=lambda a, h: [("Channel", a.self, "_strconfig"), ("BaseGateway", C(h, a.self, "gateway"), "$wire_out")],
+                   cases=[Case("ok", post=rcf_post), rcase("cannot-send", "OSError", None, lambda a, h, h2, e: [wire(h2, C(h, a.self, "gateway")) == wire(h, C(h, a.self, "gateway"))])],
+                   props=["C12"]))
+
+    # ---- Channel.__del__: the last reference to the channel object goes away -----------------------------------------------------------
+    def del_post(a, h, h2, r):
+        c = a.self
+        g = C(h, c, "gateway")
+        i = C(h, c, "id")
+        opened = z3.And(z3.Not(C(h, c, "_closed")), z3.Not(ev_set(h, C(h, c, "_receiveclosed"))))
+        code = z3.If(C(h, c, "_items") == 0, z3.IntVal(M_LAST), z3.IntVal(M_CLOSE))     # a channel with a callback keeps receiving: "last message", not "close"
+        fr = frame(code, i, z3.StringVal(""))
+        # an open channel tells the peer exactly once (a failing send is swallowed: nothing goes out); a closed or send-only channel says nothing;
+        # nothing else changes - in particular the callback table keeps its record (the callback stays active)
+        return [z3.If(opened, z3.Or(wire(h2, g) == z3.Concat(wire(h, g), z3.Unit(fr)), wire(h2, g) == wire(h, g)), wire(h2, g) == wire(h, g))]
+
+    c = w.add(Contract(f"{GB}:Channel.__del__", {"self": REF("Channel")},
+                       requires=lambda a, h: chan_wf(a, h),
+                       modifies=lambda a, h: [("BaseGateway", C(h, a.self, "gateway"), "$wire_out"), ("BaseGateway", C(h, a.self, "gateway"), "$warned")],
+                       cases=[Case("ok", post=del_post)], props=["C03", "C18"]))
+    c.ghost_init = GH(lambda a, h: C(h, a.self, "gateway"))
+    w.add_loop(LoopSpec(f"{GB}:Channel.__del__", 0, invariant=lambda L: [("nothing-sent", wire(L.h, C(L.old, L.inp("self"), "gateway")) == wire(L.old, C(L.old, L.inp("self"), "gateway"))),
+                                                                           ("params", L.self == L.inp("self"))],
+                        havoc_cells=lambda L: [("BaseGateway", C(L.old, L.inp("self"), "gateway"), "$warned")], props=["C03"]))
     return w
 
 
